@@ -66,10 +66,24 @@ def struct_messages(seed):
         # an illegal selector in front of a union with a fallback member
         ("struct:TPMT_RSA_SCHEME(scheme=0x7fff)", "TPMT_RSA_SCHEME", bytes.fromhex("7fff000b"), None, None),
         ("struct:TPMT_SIGNATURE(sigAlg=0x0001)", "TPMT_SIGNATURE", bytes.fromhex("0001000b"), None, None),
+        # a decrypt session on a command whose first parameter is no TPM2B but a later one is (known finding F8: it
+        # fails with an internal error - but it has to fail the same way every time)
+        ("cmd:EncryptDecrypt(decrypt session)", "Command", encdec(seed), None, None),
     ]
 
 
-NSTRUCT = 10
+def encdec(seed):
+    from .. import cases
+
+    u = {"kind": "command", "cc": "EncryptDecrypt", "label": "x", "k": 0, "defaults": cases.RICH + (("sessions:", 1),)}
+    b = bytearray(cases.replay_case(u, seed, ()).b)
+    # the attribute byte of the only session: handle(4) nonce(2+2) attributes(1)
+    i = 10 + 4 + 4 + 4 + 4
+    b[i] = 0x20
+    return bytes(b)
+
+
+NSTRUCT = 11
 
 
 def all_messages(seed):
@@ -135,7 +149,7 @@ def op_names(n):
     ops = [f"decode:{i}" for i in range(n)]
     ops += [f"e2o:{i}" for i in (0, 3, 5)] + [f"o2e:{i}" for i in (0, 3)] + [f"canon:{i}" for i in (1,)] + [f"warn:{i}" for i in (1, 4)]
     ops += [f"decode:{i}" for i in range(NFRAMES, NFRAMES + 5)] + [f"abandon:{i}" for i in (1, NFRAMES + 1)]
-    ops += [f"warn:{i}" for i in (NFRAMES + 6, NFRAMES + 8, NFRAMES + 9)]
+    ops += [f"warn:{i}" for i in (NFRAMES + 6, NFRAMES + 8, NFRAMES + 9)] + [f"decode:{NFRAMES + 10}"]
     return ops
 
 
